@@ -55,7 +55,7 @@ Fixpoint run_db (m : seqdb) (snaps : list (N * list (str * N))) (ops : list dop)
   | DRestart :: r => DoOk :: run_db [] snaps r
   | DLoad sid :: r =>
       match find (fun e => fst e =? sid) snaps with
-      | Some e => DoOk :: run_db (fold_left (fun m kv => sm_put str_cmp m (fst kv) (snd kv)) (snd e) m) snaps r
+      | Some e => DoOk :: run_db (db_install m (snd e)) snaps r
       | None => DoOk :: run_db m snaps r
       end
   end.
